@@ -1,10 +1,10 @@
-"""Replay for C01: real Driver / Worker objects built with __new__, recording actor stubs, scripted allocation columns; probes of the
+"""Replay for C07 (starts from the C01 probes): real Driver / Worker objects built with __new__, recording actor stubs, scripted allocation columns; probes of the
 barrier, the completed-by broadcast and the worker's progress obligation (every drive() ends with a message sent or a wake-up armed)."""
 import logging
 import threading
 import types
 
-from common import done, load
+from common import done, load, probe_exception
 
 logging.disable(logging.CRITICAL)
 
@@ -140,12 +140,78 @@ def probe_completed_by():
     return None
 
 
+def probe_postprocessor():
+    """the real SamplePostprocessor on a batch of samples of two tasks and three clients: one latency / service_time / processing_time record per
+    (down-sampled) sample, each with the sample's own client id, request meta-data and values"""
+    from esrally import metrics
+    from esrally.driver import driver
+    from esrally.track import track
+
+    class Store:
+        def __init__(self):
+            self.records = []
+
+        def put_value_cluster_level(self, **kw):
+            self.records.append(kw)
+
+        def flush(self, refresh=True):
+            self.records.append({"flush": refresh})
+
+    op = track.Operation("op", "bulk", meta_data={"op-md": 1})
+    tasks = [track.Task("t1", op, meta_data={"task": "t1"}), track.Task("t2", op, meta_data={"task": "t2"})]
+    for factor in (1, 2, 3):
+        samples = []
+        for k in range(14):
+            samples.append(driver.Sample(k % 3, 1000.0 + k, 10.0 + k, 5.0, tasks[k % 2], metrics.SampleType.Normal, {"req": k, "success": True}, 0.5 + k, 0.25 + k, 0.75 + k, None, 1, "docs", 1.0, None))
+        store = Store()
+        driver.SamplePostprocessor(store, factor, {"track": 1}, {"challenge": 1})(list(samples))
+        want = [s for i, s in enumerate(samples) if i % factor == 0]
+        for name, field in (("latency", "latency"), ("service_time", "service_time"), ("processing_time", "processing_time")):
+            recs = [r for r in store.records if r.get("name") == name]
+            if len(recs) != len(want):
+                return f"down-sampling factor {factor}: {len(recs)} {name} records for {len(want)} samples"
+            for r, smp in zip(recs, want):
+                if abs(r["value"] - getattr(smp, field) * 1000) > 1e-6:
+                    return f"{name} record {r['value']} for a sample with {field}={getattr(smp, field)} s"
+                md = r["meta_data"]
+                if md.get("client_id") != smp.client_id or md.get("req") != smp.request_meta_data["req"] or md.get("task") != smp.task.meta_data["task"] or r["task"] != smp.task.name:
+                    return (f"{name} record of the sample of client {smp.client_id} / request {smp.request_meta_data['req']} / task {smp.task.name} carries "
+                            f"client_id={md.get('client_id')}, req={md.get('req')}, task={r['task']} (down-sampling factor {factor})")
+        if store.records[-1] != {"flush": False}:
+            return f"batch not flushed without refresh: last call {store.records[-1]}"
+    return None
+
+
+def probe_final_join_point():
+    """the last worker reaching the LAST join point: the samples gathered in the last step are post-processed before the race is reported complete"""
+    d = mk_driver(2, steps=1)
+    calls = []
+    d.post_process_samples = lambda: calls.append("post_process")
+    d.telemetry = type("T", (), {"on_benchmark_stop": lambda self: calls.append("telemetry_stop")})()
+    d.metrics_store = type("M", (), {"to_externalizable": lambda self, clear=False: calls.append("externalize") or "m", "close": lambda self: calls.append("close")})()
+    d.update_progress_message = lambda task_finished=False: None
+    d.delete_api_keys = lambda *a, **k: None
+    d.config = type("C", (), {"opts": lambda self, *a, **k: None})()
+    d.driver_actor.on_benchmark_complete = lambda m: calls.append("on_benchmark_complete")
+    d.tasks_per_join_point = [set()]
+    d.current_step = 0
+    d.number_of_steps = 1
+    try:
+        d.joinpoint_reached(0, 1.0, [])
+        d.joinpoint_reached(1, 1.0, [])
+    except Exception as ex:  # noqa
+        return None if "probe" in str(ex) else f"probe error {type(ex).__name__}: {ex}"
+    if "on_benchmark_complete" in calls and ("post_process" not in calls or calls.index("post_process") > calls.index("on_benchmark_complete")):
+        return f"final join point: calls {calls}: the samples of the last step are not post-processed before the race is reported complete"
+    return None
+
+
 def main(rec):
-    for f in (probe_barrier, probe_completed_by, probe_worker_progress, probe_sampler_handover):
+    for f in (probe_postprocessor, probe_final_join_point, probe_barrier, probe_completed_by, probe_worker_progress, probe_sampler_handover):
         try:
             v = f()
         except Exception as ex:  # noqa
-            v = f"{f.__name__} raised {type(ex).__name__}: {ex}"
+            v = probe_exception(f, ex)
         if v:
             done(True, v)
     done(False, "probes pass for " + rec.get("obligation", ""))
